@@ -1,6 +1,8 @@
 use rand::Rng;
 
-use crate::{utils::ArrayMap, Color, Piece, PieceIndex, Square, State};
+use crate::{
+    utils::ArrayMap, AttackGenerator, Color, File, Piece, PieceIndex, Side, Square, State,
+};
 
 pub type Hash = u64;
 
@@ -8,6 +10,8 @@ pub type Hash = u64;
 pub struct ZobristHasher {
     turn_hash: ArrayMap<Color, u64>,
     piece_hash: ArrayMap<Square, ArrayMap<PieceIndex, u64>>,
+    castle_hash: ArrayMap<Color, ArrayMap<Side, u64>>,
+    en_passant_hash: ArrayMap<File, u64>,
 }
 
 impl ZobristHasher {
@@ -18,6 +22,8 @@ impl ZobristHasher {
         Self {
             turn_hash: ArrayMap::from_fn(|_| rng.next_u64()),
             piece_hash: ArrayMap::from_fn(|_| ArrayMap::from_fn(|_| rng.next_u64())),
+            castle_hash: ArrayMap::from_fn(|_| ArrayMap::from_fn(|_| rng.next_u64())),
+            en_passant_hash: ArrayMap::from_fn(|_| rng.next_u64()),
         }
     }
 
@@ -35,6 +41,31 @@ impl ZobristHasher {
         }
 
         hash ^= self.turn_hash[state.turn_to_move()];
+
+        // Castling rights change which moves are legal, so they are part of the position
+        for color in Color::ALL {
+            let rights = state.castle_rights(*color);
+            for side in Side::ALL {
+                if rights.for_side(*side) {
+                    hash ^= self.castle_hash[*color][*side];
+                }
+            }
+        }
+
+        // So does an en passant target, but only when a pawn of the side to move can actually
+        // capture on it (otherwise the same position reached without a double push must hash equal)
+        if let Some(target) = state.en_passant_target() {
+            let mover = state.turn_to_move();
+            let capturers = AttackGenerator::compute_pawn_attacks(target, mover.opposing_color())
+                & state
+                    .board()
+                    .piece_occupancy(PieceIndex::new(mover, Piece::Pawn));
+
+            if capturers.any() {
+                hash ^= self.en_passant_hash[target.file()];
+            }
+        }
+
         hash
     }
 }
